@@ -244,3 +244,57 @@ fn c01_probe_storage_fwdstub() {
 // longer tracks as concrete, which makes these an order of magnitude more expensive than one-argument shapes)
 p_harness!(c01_p_verbose_two_args_u8_bool, 30, Shape { storage: false, htyp: H_EXT_LE, msin: M_LOG_INFO_V, ids: IDS_FULL, payload: P::Verbose(&[arg(AK::U(1)), arg(AK::Bool)]) }, 1);
 p_harness!(c01_p_nettrace_two_slices, 30, Shape { storage: false, htyp: H_EXT_LE, msin: M_NW_CAN_V, ids: IDS_FULL, payload: P::NetTrace(&[1, 1]) }, 1);
+
+// ---------------------------------------------------------------------------
+// The identity in ONE query: parse(Message::as_bytes(m) ++ tail) == (tail, m)
+// for the shape, all data symbolic. (W in c02w and P above decide the two halves
+// against the reference encoding; this harness decides their composition on the
+// crate's own bytes, without the reference encoder in between.)
+// ---------------------------------------------------------------------------
+pub fn round_trip(s: &Shape, tail: usize) {
+    let bt = build(s, tail, None, None); // supplies the symbolic data and the tail bytes
+    let m = crate::c02w::message_of(s, &bt);
+    let bytes = m.as_bytes();
+    assert!(bytes.len() == bt.msg_end, "serialised length differs from storage header + declared length");
+    let mut b = Buf::<MAXMSG>::new();
+    b.put_bytes(&bytes, bt.msg_end);
+    let mut i = 0;
+    while i < tail {
+        b.put(bt.buf.b[bt.msg_end + i]);
+        i += 1;
+    }
+    let input = b.slice();
+    let r = dlt_message(input, None, s.storage);
+    match &r {
+        Ok((rest, ParsedMessage::Item(mm))) => {
+            assert!(rest.len() == tail, "remainder length");
+            assert!(rest.as_ptr() as usize == input.as_ptr() as usize + bt.msg_end, "remainder start");
+            check_headers(mm, s.storage, s.htyp, s.msin, &bt.h, bt.payload_len as u16);
+            check_payload(mm, s, &bt);
+            kani::cover!(true, "round trip");
+        }
+        _ => assert!(false, "serialised well-formed message not parsed back"),
+    }
+    std::mem::forget(r);
+    std::mem::forget(bytes);
+    std::mem::forget(m);
+}
+
+macro_rules! rt_harness {
+    ($name:ident, $shape:expr, $tail:expr) => {
+        #[kani::proof]
+        #[kani::unwind(100)]
+        #[kani::stub(std::fmt::format, crate::models::fmt_format_stub)]
+        #[kani::stub(core::str::from_utf8, crate::models::from_utf8_stub)]
+        #[kani::stub(dlt_core::parse::forward_to_next_storage_header, crate::models::forward_stub)]
+        fn $name() {
+            let s: Shape = $shape;
+            round_trip(&s, $tail);
+        }
+    };
+}
+rt_harness!(c01_rt_nonverbose_min, Shape { storage: false, htyp: H_MIN, msin: 0, ids: IDS_FULL, payload: P::NonVerbose(2) }, 2);
+rt_harness!(c01_rt_control_le, Shape { storage: false, htyp: H_EXT_LE, msin: M_CTRL_REQ, ids: IDS_FULL, payload: P::Control(2) }, 1);
+rt_harness!(c01_rt_verbose_bool_le, Shape { storage: false, htyp: H_EXT_LE, msin: M_LOG_INFO_V, ids: IDS_FULL, payload: P::Verbose(&[arg(AK::Bool)]) }, 2);
+rt_harness!(c01_rt_nettrace_be, Shape { storage: false, htyp: H_EXT_BE, msin: M_NW_CAN_V, ids: IDS_FULL, payload: P::NetTrace(&[3]) }, 2);
+rt_harness!(c01_rt_verbose_u32_named_be_storage, Shape { storage: true, htyp: H_ALL_BE, msin: M_LOG_INFO_V, ids: IDS_FULL, payload: P::Verbose(&[arg_v(AK::U(4), 2, 1)]) }, 2);
